@@ -92,8 +92,16 @@ def _opaque_call(n):
     return False
 
 
-def origins(hir, expr, params=(), defs=None, limit=400):
+def origins(hir, expr, params=(), defs=None, limit=400, transparent=()):
+    """transparent: suffixes of crate-local callees whose arguments are followed as well (a pure query such as
+    `llvm.size_in_bits(t)` or `ty.generate(llvm)` denotes a property of its argument)."""
     defs = defs if defs is not None else definitions(hir, params)
+
+    def opaque(n):
+        if _opaque_call(n):
+            c = hirq.callee(n) or hirq.callee_decl(n) or ""
+            return not (transparent and c.endswith(tuple(transparent)))
+        return False
     out = set()
     seen_l = set()
     work = [expr]
@@ -103,7 +111,7 @@ def origins(hir, expr, params=(), defs=None, limit=400):
         e = work.pop()
         if e is None:
             continue
-        for n in walk(e, _opaque_call):
+        for n in walk(e, opaque):
             k = n.get("k")
             if k == "Field":
                 out.add(("field", n.get("name")))
@@ -111,7 +119,7 @@ def origins(hir, expr, params=(), defs=None, limit=400):
                 c = hirq.callee(n) or hirq.callee_decl(n) or n.get("name")
                 if c:
                     out.add(("call", c))
-                if k == "MethodCall" and _opaque_call(n) and isinstance(n.get("recv"), dict):
+                if k == "MethodCall" and opaque(n) and isinstance(n.get("recv"), dict):
                     work.append(n["recv"])  # the result of x.method(..) derives from x
             elif k == "Lit":
                 out.add(("lit", n.get("v")))
